@@ -545,9 +545,40 @@ def e_names():
             yield rename(it, vn, fn, iname)
 
 
+# ------------------------------------------------------------------ E11: order and grouping of field options
+
+def e_fieldopts():
+    """`Zeroize(fqs)` together with a skip option on one field, in either order, in one attribute or in two; the same
+    for several skip lists.  (Only the zeroize configurations accept `Zeroize(fqs)`: an option written *after* it must
+    still be honoured there, for every trait of the skip group.)"""
+    traits = ['Zeroize', 'Debug', 'PartialEq', 'PartialOrd', 'Hash', 'Clone']
+    fqs = MList('Zeroize', [MPathM('fqs')])
+    for g in (None, ['Debug'], ['EqHashOrd'], ['Hash'], ['Zeroize'], ['Debug', 'EqHashOrd'], ['Hash', 'Debug']):
+        sk = skip_meta(g)
+        for order in ([fqs, sk], [sk, fqs]):
+            for split in (False, True):
+                bodies = [opt(m) for m in order] if split else [opt(*order)]
+                fs = [Field(0, 'T', []), Field(1, 'T', bodies), Field(2, 'u8', [])]
+                yield Item('struct', I('A'), tparam(), [], False, [dw(traits, gen_T())], [Variant(I('A'), 'tuple', fs)])
+                nfs = [Field(I('a'), 'T', []), Field(I('b'), 'T', bodies)]
+                yield Item('enum', I('A'), tparam(), [], False, [dw(traits, gen_T())],
+                           [Variant(I('X'), 'named', nfs), Variant(I('Y'), 'unit', [])])
+    # several skip lists on one field: every list counts, whichever comes last
+    for gs in itertools.permutations(['Debug', 'EqHashOrd', 'Zeroize'], 2):
+        for split in (False, True):
+            ms = [skip_meta([g]) for g in gs]
+            bodies = [opt(m) for m in ms] if split else [opt(*ms)]
+            fs = [Field(0, 'T', []), Field(1, 'T', bodies)]
+            yield Item('struct', I('A'), tparam(), [], False, [dw(traits, gen_T())], [Variant(I('A'), 'tuple', fs)])
+            yield Item('struct', I('A'), tparam(), [], False, [dw(traits[1:], gen_T())], [Variant(I('A'), 'tuple', fs)]) \
+                if 'Zeroize' not in gs else Item('struct', I('A'), tparam(), [], False, [dw(traits, gen_T())],
+                                                 [Variant(I('A'), 'named', [Field(I('a'), 'T', bodies), Field(I('b'), 'u8', [])])])
+
+
 ENUMERATORS = {
     'skip': e_skip, 'incomparable': e_incomparable, 'discriminants': e_discriminants, 'default': e_default,
     'bounds': e_bounds, 'zeroize': e_zeroize, 'debug': e_debug, 'invalid': e_invalid, 'names': e_names,
+    'fieldopts': e_fieldopts,
 }
 
 
